@@ -7,7 +7,7 @@ From FT.gen Require Import Common Interp2d Interp3d Vinterp2d Vinterp3d FteikCom
 From FT.model Require Import Api.
 From FT.proofs Require Import Sweep2dProofs OperatorsR ApiProofs.
 From FT.gen Require Import Vinterp2d Vinterp3d Interp2d Interp3d.
-From FT.proofs Require Operators3R InitSym InitExact SolveScale2d NonNeg3d SolveScale3d VinterpScale.
+From FT.proofs Require Operators3R InitSym InitExact SolveScale2d NonNeg3d SolveScale3d VinterpScale RayScale.
 Import ListNotations.
 Open Scope R_scope.
 
@@ -459,6 +459,58 @@ Theorem C05_grid_evaluation_unit_invariant_3d :
          (c * xq) (c * yq) (c * zq) fval = u_interp3d_v x y z v xq yq zq fval.
 Proof. exact @VinterpScale.interp3d_scale. Qed.
 
+(* free-step ray core, exact arithmetic, only premise c > 0: scaling the axes, the end point, the source and the step by c (same gradient grids, budget, fuel) gives the same count (-1, -2, out of fuel included) and the whole ray buffer multiplied by c *)
+Theorem C05_free_step_ray_scales_with_length_2d :
+  forall c : R,
+       0 < c ->
+       forall (z x zgrad xgrad : arr R) (zend xend zsrc xsrc stepsize : R) (fuel : nat) (M : Z),
+       u_ray2d_core_v fuel (RayScale.sc c z) (RayScale.sc c x) zgrad xgrad (c * zend) (c * xend) 
+         (c * zsrc) (c * xsrc) (c * stepsize) M false =
+       RayScale.rmap (RayScale.sc_out c) (u_ray2d_core_v fuel z x zgrad xgrad zend xend zsrc xsrc stepsize M false).
+Proof. exact @RayScale.ray2d_core_scale. Qed.
+
+(* entry point ray2d: the returned polyline is multiplied by c, or the same exception is raised *)
+Theorem C05_free_step_polyline_scales_with_length_2d :
+  forall (c : R) (z x zgrad xgrad p src : arr R) (stepsize : R) (fuel : nat) (M : Z),
+       0 < c ->
+       ray2d_1 fuel (RayScale.sc c z) (RayScale.sc c x) zgrad xgrad (RayScale.sc c p) (RayScale.sc c src)
+         (c * stepsize) M false = RayScale.rmap (RayScale.sc c) (ray2d_1 fuel z x zgrad xgrad p src stepsize M false).
+Proof. exact @RayScale.ray2d_1_scale. Qed.
+
+(* 3D *)
+Theorem C05_free_step_ray_scales_with_length_3d :
+  forall c : R,
+       0 < c ->
+       forall (z x y zgrad xgrad ygrad : arr R) (zend xend yend zsrc xsrc ysrc stepsize : R) (fuel : nat) (M : Z),
+       u_ray3d_core_v fuel (RayScale.sc c z) (RayScale.sc c x) (RayScale.sc c y) zgrad xgrad ygrad 
+         (c * zend) (c * xend) (c * yend) (c * zsrc) (c * xsrc) (c * ysrc) (c * stepsize) M false =
+       RayScale.rmap (RayScale.sc_out c)
+         (u_ray3d_core_v fuel z x y zgrad xgrad ygrad zend xend yend zsrc xsrc ysrc stepsize M false).
+Proof. exact @RayScale.ray3d_core_scale. Qed.
+
+(* 3D *)
+Theorem C05_free_step_polyline_scales_with_length_3d :
+  forall (c : R) (z x y zgrad xgrad ygrad p src : arr R) (stepsize : R) (fuel : nat) (M : Z),
+       0 < c ->
+       ray3d_1 fuel (RayScale.sc c z) (RayScale.sc c x) (RayScale.sc c y) zgrad xgrad ygrad 
+         (RayScale.sc c p) (RayScale.sc c src) (c * stepsize) M false =
+       RayScale.rmap (RayScale.sc c) (ray3d_1 fuel z x y zgrad xgrad ygrad p src stepsize M false).
+Proof. exact @RayScale.ray3d_1_scale. Qed.
+
+(* why the property speaks of free-step rays only: the grid-honouring tracer compares distances to grid lines with the ABSOLUTE tolerance 1e-8 (grid magnetism), so for every 0 < c < 2e-8 the run scaled by c stores (c, 0) where the unit run stores (1, 1/2); the Python code gives the same outputs at c = 1e-9 *)
+Theorem C05_grid_honouring_ray_not_scale_invariant :
+  forall c : R,
+       0 < c < 2 / 100000000 ->
+       exists ray ray' : arr R,
+         u_ray2d_core_v 2 RayScale.hz RayScale.hx RayScale.hg1 RayScale.hg0 (3 / 2) (1 / 2) (1 / 4) (1 / 2) 1 10 true =
+         Ok (ray, 2%Z) /\
+         u_ray2d_core_v 2 (RayScale.sc c RayScale.hz) (RayScale.sc c RayScale.hx) RayScale.hg1 RayScale.hg0
+           (c * (3 / 2)) (c * (1 / 2)) (c * (1 / 4)) (c * (1 / 2)) (c * 1) 10 true = Ok (ray', 2%Z) /\
+         get 0 ray [1%Z; 0%Z] = 1 /\
+         get 0 ray [1%Z; 1%Z] = 1 / 2 /\
+         get 0 ray' [1%Z; 0%Z] = c /\ get 0 ray' [1%Z; 1%Z] = 0 /\ get 0 ray' [1%Z; 1%Z] <> c * get 0 ray [1%Z; 1%Z].
+Proof. exact @RayScale.ray2d_honor_grid_not_scale_invariant. Qed.
+
 Print Assumptions C05_t_ana_scale_slowness.
 Print Assumptions C05_t_ana_scale_length.
 Print Assumptions C05_t_anad_scale_slowness.
@@ -493,3 +545,8 @@ Print Assumptions C05_interpolated_time_scales_with_length_3d.
 Print Assumptions C05_interpolated_time_scales_with_slowness_3d.
 Print Assumptions C05_grid_evaluation_unit_invariant_2d.
 Print Assumptions C05_grid_evaluation_unit_invariant_3d.
+Print Assumptions C05_free_step_ray_scales_with_length_2d.
+Print Assumptions C05_free_step_polyline_scales_with_length_2d.
+Print Assumptions C05_free_step_ray_scales_with_length_3d.
+Print Assumptions C05_free_step_polyline_scales_with_length_3d.
+Print Assumptions C05_grid_honouring_ray_not_scale_invariant.
